@@ -1,3 +1,4 @@
 pub mod bits;
 pub mod expr;
 pub mod svref;
+pub mod semver_ref;
